@@ -283,14 +283,20 @@ pub fn run(tier: Tier, seed: u64) -> i32 {
     }
 
     // ---- large limits: shapes at depth d-1, d, d+1 --------------------------------------------
-    for d in [16u16, 64, 128, 129, 200] {
+    // (on a thread with a large stack: the limits beyond the widths of narrow counters - 255 / 256,
+    // 65 535 - make engine and reference recurse deeply; the stack bound for *accepted* filters is
+    // checked separately below, at 200)
+    let large_limits = |limits: &[u16], kinds: usize| {
+    for &d in limits {
         for delta in [-1i32, 0, 1] {
             let want = (d as i32 + delta) as usize;
-            let mut shapes: Vec<Expr> = (0..5).map(|k| deep_shape(&uni, k, want)).collect();
-            shapes.push(deep_quant_shape(&uni, want));
+            let mut shapes: Vec<Expr> = (0..kinds).map(|k| deep_shape(&uni, k, want)).collect();
+            if kinds == 5 {
+                shapes.push(deep_quant_shape(&uni, want));
+            }
             for s in shapes {
                 assert_eq!(depth(&s), want, "generator must hit the wanted depth");
-                for p in placements(&s).into_iter().take(3) {
+                for p in placements(&s).into_iter().take(if want > 2000 { 1 } else { 3 }) {
                     // placements 0..2 keep the depth (chains do not nest)
                     let text = render(&p);
                     judge(&run, &uni, &scheme, d, &p, &text, &stats);
@@ -310,9 +316,41 @@ pub fn run(tier: Tier, seed: u64) -> i32 {
                     }
                     run.count("large_limit_cases", 1);
                 }
+                // dropping a very deep expression tree recurses as well: do it here, on the large stack
+                drop(s);
             }
         }
     }
+    };
+    std::thread::scope(|sc| {
+        let h = std::thread::Builder::new()
+            .name("c13-large-limits".into())
+            .stack_size(3 << 30)
+            .spawn_scoped(sc, || {
+                large_limits(&[16, 64, 128, 129, 200, 255, 256, 257, 300, 1000], 5);
+                // the counter's full width, with texts built directly (parentheses, `not`, `!`)
+                for (open, close) in [("(", ")"), ("not ", ""), ("!", "")] {
+                    for n in [65534usize, 65535, 65536, 70000] {
+                        let text = format!("{}t{}", open.repeat(n), close.repeat(n));
+                        let want = n <= 65535;
+                        let got = parse_with(&scheme, 65535, &text).map(|r| r.is_ok());
+                        run.eval(1);
+                        run.count("large_limit_cases", 1);
+                        if got != Ok(want) {
+                            run.violation(
+                                format!("{ID}:limit:65535:{n} x {open:?}"),
+                                format!("max_nesting_depth=65535: {n} nested {open:?} around `t`: engine {got:?}, expected accepted={want}"),
+                                json!({"kind": "c13-large", "open": open, "nesting": n}),
+                            );
+                        }
+                    }
+                }
+            })
+            .expect("spawn");
+        if h.join().is_err() {
+            run.violation(format!("{ID}:large-limits-panic"), "checking the large limits panicked".into(), json!({"kind": "c13-large"}));
+        }
+    });
 
     // ---- parse_value with call nests ---------------------------------------------------------------
     for d in 0..=max_d {
@@ -358,7 +396,7 @@ pub fn run(tier: Tier, seed: u64) -> i32 {
     run.set("rejected", json!(stats.rejected.load(Ordering::Relaxed)));
     run.set("accepted_exactly_at_limit", json!(stats.at_limit.load(Ordering::Relaxed)));
     run.set("rejected_one_over_limit", json!(stats.just_over.load(Ordering::Relaxed)));
-    run.set("bounds", json!({"max_sequence_length": max_len, "limits": format!("0..={max_d} and 16,64,128,129,200")}));
+    run.set("bounds", json!({"max_sequence_length": max_len, "limits": format!("0..={max_d} and 16,64,128,129,200,255,256,257,300,1000,65535")}));
     run.finish(
         stats.at_limit.load(Ordering::Relaxed).min(stats.just_over.load(Ordering::Relaxed)),
         "every applicable sequence of the nesting constructs {(), not, !, any, all, fb/fa, fade} up to the length bound around both leaves x 6 placements x every limit 0..=max; large limits with pure/cyclic shapes at d-1, d, d+1; distinct_nontrivial = min(#accepted exactly at the limit, #rejected exactly one over)",
